@@ -581,7 +581,7 @@ def run_case(scratch: str, case: Dict[str, Any], chooser_factory: Callable[[S.Sc
             op = dict(op)
             if op["kind"] == "delete_snapshot":
                 order = res.initial["log_order"]
-                op["id"] = {"old": order[0], "current": res.initial["current"]}.get(op.get("which"), op.get("id"))
+                op["id"] = {"old": order[0], "second": order[min(1, len(order) - 1)], "current": res.initial["current"]}.get(op.get("which"), op.get("id"))
             ops.append(op)
         try:
             # actors are registered in index order whatever process they live in (choosers' "first enabled" is A0 < A1 < ...)
